@@ -381,6 +381,11 @@ def search(seed, n_rounds):
     return dict(found=S.found, evaluations=S.ev)
 
 
+def entry(seed, tier, broken):
+    """entry point for tools/check.py (props.py: search=("search.equals", "entry"))"""
+    return search(seed, 4000 if (tier == "thorough" or broken) else 150)
+
+
 def replay(rep):
     """re-run a recorded witness on the current tree; 1 = reproduces"""
     import json
